@@ -130,7 +130,10 @@ def check_valid_graph(k, bits, as_bool, verbose=False, dtype=None):
     if dtype in ("list", "tuple"):
         mask = numpy.array(bits, dtype=int)  # snapshot carrier; the call itself gets a plain Python sequence
     else:
-        mask = gens.pooled(numpy.array(bits, dtype=dtype or (bool if as_bool else int)), "mask")
+        if dtype in ("strided", "readonly"):
+            mask = gens.pooled(gens.flat_variant(numpy.array(bits, dtype=bool if as_bool else int), dtype), "mask")
+        else:
+            mask = gens.pooled(numpy.array(bits, dtype=dtype or (bool if as_bool else int)), "mask")
     before = mask.tobytes()
     argument = mask
     if dtype == "list":
@@ -201,7 +204,8 @@ def valid_cases(draw, tier):
         bits = [0] * (4 ** k)
     return {"k": k, "bits": "".join(map(str, bits)), "bool": draw(st.booleans()) and kind != "values>1",
             "none": kind == "none", "verbose": k <= 7 and draw(st.integers(0, 3)) == 0,
-            "dtype": draw(st.sampled_from([None, None, None, "uint8", "int8", "int32", "list", "tuple"]))
+            "dtype": draw(st.sampled_from([None, None, None, "uint8", "int8", "int32", "list", "tuple", "strided",
+                                           "readonly"]))
             if kind != "values>1" else None,
             "full": draw(st.sampled_from([False] * 9 + [True]))}
 
